@@ -14,6 +14,7 @@ import (
 	"go/types"
 	"reflect"
 	"regexp"
+	"sort"
 	"strconv"
 	"strings"
 
@@ -659,10 +660,15 @@ func typeTableGrounds(pk *packages.Package) []Ground {
 		// legacy Descriptor() / EnumDescriptor(): the index path leads from the file to the declaration (outermost first)
 		{
 			paths := map[string]string{}
+			noGoType := map[string]bool{}
+			seenPath := map[string]bool{}
 			var walkP func(goPrefix, path string, m *descriptorpb.DescriptorProto)
 			walkP = func(goPrefix, path string, m *descriptorpb.DescriptorProto) {
 				gn := goPrefix + goCamel(m.GetName())
 				paths[gn] = path
+				if m.GetOptions().GetMapEntry() {
+					noGoType[gn] = true
+				}
 				for i, e := range m.EnumType {
 					paths[gn+"_"+goCamel(e.GetName())] = path + ", " + strconv.Itoa(i)
 				}
@@ -700,10 +706,21 @@ func typeTableGrounds(pk *packages.Package) []Ground {
 						}
 						got = strings.Join(parts, ", ")
 					}
+					seenPath[recv] = true
 					out = append(out, Ground{Name: fmt.Sprintf("%s/%s.%s/descriptor-path", name, recv, fdl.Name.Name), OK: got == want,
 						Text: fmt.Sprintf("%s.%s() returns the declaration's index path []int{%s} (outermost first)", recv, fdl.Name.Name, want), Detail: "[]int{" + got + "}"})
 				}
 			}
+			var missing []string
+			for gn := range paths {
+				if !noGoType[gn] && !seenPath[gn] {
+					missing = append(missing, gn)
+				}
+			}
+			sort.Strings(missing)
+			out = append(out, Ground{Name: name + "/legacy-descriptor-methods", OK: len(missing) == 0,
+				Text: "every message and enum of the file, nested ones included, has the legacy Descriptor() / EnumDescriptor() ([]byte, []int) method", Detail: "missing for " + strings.Join(missing, ", ")})
+			out = append(out, oneofWrapperGrounds(pk, fd, base, name)...)
 		}
 		// file init: every imported file that lives in the same Go package is initialised first (same Go import path — not
 		// same proto package — is what makes its init function local)
@@ -1198,6 +1215,88 @@ func structTagGrounds(pk *packages.Package, fd *descriptorpb.FileDescriptorProto
 	}
 	for _, m := range fd.MessageType {
 		walk(goCamel(m.GetName()), m)
+	}
+	return out
+}
+
+// oneofWrapperGrounds (C19): protobuf-go's MessageInfo finds the wrapper type of a oneof member through
+// file_*_msgTypes[i].OneofWrappers, filled in by the file's init function.  Every message with members of real (not
+// synthetic) oneofs has such a list at its own flattened index, with one wrapper type of that message per member.
+func oneofWrapperGrounds(pk *packages.Package, fd *descriptorpb.FileDescriptorProto, base, name string) []Ground {
+	type md struct {
+		goName string
+		m      *descriptorpb.DescriptorProto
+	}
+	var msgs []md
+	var declM func(goPrefix string, m *descriptorpb.DescriptorProto)
+	declM = func(goPrefix string, m *descriptorpb.DescriptorProto) {
+		for _, n := range m.NestedType {
+			msgs = append(msgs, md{goPrefix + goCamel(n.GetName()), n})
+		}
+		for _, n := range m.NestedType {
+			declM(goPrefix+goCamel(n.GetName())+"_", n)
+		}
+	}
+	for _, m := range fd.MessageType {
+		msgs = append(msgs, md{goCamel(m.GetName()), m})
+	}
+	for _, m := range fd.MessageType {
+		declM(goCamel(m.GetName())+"_", m)
+	}
+	got := map[int][]string{}
+	for _, f := range pk.Syntax {
+		for _, d := range f.Decls {
+			fdl, ok := d.(*ast.FuncDecl)
+			if !ok || fdl.Recv != nil || fdl.Body == nil || fdl.Name.Name != base+"_init" {
+				continue
+			}
+			ast.Inspect(fdl.Body, func(n ast.Node) bool {
+				as, ok := n.(*ast.AssignStmt)
+				if !ok || len(as.Lhs) != 1 || len(as.Rhs) != 1 {
+					return true
+				}
+				sel, ok := as.Lhs[0].(*ast.SelectorExpr)
+				if !ok || sel.Sel.Name != "OneofWrappers" {
+					return true
+				}
+				ie, ok := sel.X.(*ast.IndexExpr)
+				if !ok || types.ExprString(ie.X) != base+"_msgTypes" {
+					return true
+				}
+				idx := -1
+				if bl, ok := ie.Index.(*ast.BasicLit); ok {
+					idx, _ = strconv.Atoi(bl.Value)
+				}
+				var names []string
+				if cl, ok := as.Rhs[0].(*ast.CompositeLit); ok {
+					for _, e := range cl.Elts {
+						names = append(names, types.ExprString(e))
+					}
+				}
+				got[idx] = names
+				return true
+			})
+		}
+	}
+	var out []Ground
+	for i, x := range msgs {
+		want := 0
+		for _, f := range x.m.Field {
+			if f.OneofIndex != nil && !f.GetProto3Optional() {
+				want++
+			}
+		}
+		if want == 0 && got[i] == nil {
+			continue
+		}
+		ok := len(got[i]) == want
+		for _, n := range got[i] {
+			if !strings.HasPrefix(n, "(*"+x.goName+"_") {
+				ok = false
+			}
+		}
+		out = append(out, Ground{Name: fmt.Sprintf("%s/%s/oneof-wrappers", name, x.goName), OK: ok,
+			Text: fmt.Sprintf("%s_msgTypes[%d].OneofWrappers lists one wrapper type of %s per member of its real oneofs (%d)", base, i, x.goName, want), Detail: strings.Join(got[i], ", ")})
 	}
 	return out
 }
